@@ -6,6 +6,7 @@ import (
 	"sort"
 	"strconv"
 	"strings"
+	"sync/atomic"
 	"time"
 )
 
@@ -77,6 +78,7 @@ func cmdCheck(args []string) int {
 		e.seed, _ = strconv.ParseInt(s, 10, 64)
 	}
 	if e.tier == "thorough" {
+		e.samplesPerHarness = 3
 		e.crossCheck = os.Getenv("VERIF_NOCROSS") == ""
 	}
 	t0 := time.Now()
@@ -121,6 +123,12 @@ func cmdCheck(args []string) int {
 	}
 	sort.Strings(vacuous)
 
+	if atomic.LoadInt32(&e.stop) == 0 && os.Getenv("VERIF_NOVALIDATE") == "" {
+		e.validateSamples(prop)
+		for _, m := range e.tracesMismatch {
+			e.inconcl["translator validation: "+m]++
+		}
+	}
 	known := e.loadKnown()
 	rc := 0
 	nviol := 0
